@@ -265,7 +265,10 @@ impl<'a, T: AsRef<str>> Tokenizer<'a, T> {
         }
 
         if let Some(pos) = latest_pos {
-            if let Ok(number) = digits.parse::<f64>() {
+            // A numeral with too many digits parses to infinity, which we
+            // can't represent as a numeric literal.
+            let finite_number = digits.parse::<f64>().ok().filter(|n| n.is_finite());
+            if let Some(number) = finite_number {
                 self.index += pos;
                 Some(Ok(Token::NumericLiteral(number)))
             } else {
